@@ -644,6 +644,14 @@ theorem pg_result_format_rule (rf : List Nat) (hv : ValidCodes rf) (i : Nat) :
     | a :: b :: r, _ =>
       simp only [pgResultFormat, hc]
 
+/-- **pg_format_code_rule.** `GetParameterFormatByIndex` itself – used for the result formats of every column and for
+the formats of the bound parameters (`BindPacket.GetParameters`) – is PostgreSQL's rule for a list of format codes: no
+code → text, one code → that code for every index, otherwise the code at the index; an index without a code is an
+error. (For valid codes; an unknown code is an error of the lookup.) -/
+theorem pg_format_code_rule (codes : List Nat) (hv : ValidCodes codes) (i : Nat) :
+    Wire.Pg.formatByIndex i codes = (match pgResultFormat codes i with | some c => .ok (c == 1) | none => .err) :=
+  formatByIndex_rule codes hv i
+
 /-- **row_columns_independent_pg.** In a DataRow the proxy delivers (`pgRow … = .cols outs`), the value at position `i`
 is a function of column `i` alone: NULL stays NULL, and a column with a setting is what the single-column read path
 `pgTypedRead` makes of ITS setting, ITS stored value and ITS keys (`reveal`) in the format PostgreSQL's rule gives
